@@ -144,7 +144,7 @@ SetExportFindings(C, km, proto, buf, os, es, sx) ==
   ELSE IF es.k = "odata" /\ proto = "v9" THEN {<<C, loc, "export", "other">>}
   ELSE IF ~Checkable(km, proto, es) THEN
     LET vals == IF proto = "v9" THEN Flatten(os.recs) ELSE MapVals(os.maps)
-        tags == LossyTags(vals) IN
+        tags == LossyTags(vals) \cup (IF proto = "ipfix" /\ HasVarLen(es.def.fields) THEN {"varlen"} ELSE {}) IN
     IF tags = {} THEN {<<C, loc, "export", "unsupported-width:other">>}
     ELSE {<<C, loc, "export", "unsupported-width:" \o t>> : t \in tags}
   ELSE
